@@ -714,6 +714,15 @@ def r13_tested_value_is_stored(ctx):
                       "the fit runs again")
 
 
+
+def r_no_handout(ctx):
+    """the documented get-edit-fit workflow (`p = get_initial_fit_parameters();
+    p[..].value = ..; fit_model(params_initial=p)`) only leads to a new fit if
+    the stored settings are never handed out: shared with C10-R3"""
+    from .c10 import r3_no_handout
+    r3_no_handout(ctx)
+
+
 RULES = [
     ("C03-R1", "a changed setting drops results on every storing path",
      r1_invalidate_on_change),
@@ -744,4 +753,7 @@ RULES = [
     ("C03-R15", "apply_preprocessing runs the request it is given (only "
      "None means the remembered pipeline) and compares both items",
      r15_request_reaches_the_pipeline),
+    ("C03-R16", "stored settings are never handed out by reference (an "
+     "edited copy given back to fit_model must be seen as a change)",
+     r_no_handout),
 ]
